@@ -452,8 +452,7 @@ class ODataParser(Parser):
             # We want to nest attributes in the opposite direction of parsing, e.g.:
             # we prefer Attribute(Attribute(Id(A), 'created_by'), 'name')
             # over      Attribute(Id(A), Attribute(Id(created_by), 'name'))
-            naive_attr = ast.Attribute(p[0], p[1])
-            return self._reverse_attributes(naive_attr)
+            return self._prepend_owner(p[0], p[1])
         elif isinstance(p[1], ast.CollectionLambda):
             # Very similar for CollectionLambdas:
             # We prefer the CollectionLambda to define its complete owner
